@@ -150,14 +150,26 @@ def run_seed(prop: str, seed: int, gold: Goldens):
                 v["golden"] = goldens.get(v["key"])
             checked.append(v)
         out["violations"].extend(checked)
-        out["execs"].append({"phase": name, "res": summarize(res, compared) if res is not None else None, "digest": runner.digest(res) if res is not None else None})
+        out["execs"].append({"phase": name, "res": summarize(res, compared, plan) if res is not None else None, "digest": runner.digest(res) if res is not None else None})
     out["wall_s"] = time.monotonic() - t0
     out["nkeys"] = len(keys)
     return out
 
 
-def summarize(res: dict, compared):
+def summarize(res: dict, compared, plan=None):
     """Compact per-execution statistics for evidence (no large payloads)."""
+    matrix = {}
+    if plan is not None:
+        for rec in res["history"]:
+            if rec["op"] == "render" and rec.get("outcome") == "ok" and rec["i"] < len(plan["ops"]):
+                op = plan["ops"][rec["i"]]
+                k = "%s%s%s%s" % (op.get("lang"), " -O" if op.get("opt") else "", " -F" if op.get("filter") else "", (" --endian " + op.get("endian")) if op.get("opt") and op.get("endian", "both") != "both" else "")
+                matrix[k] = matrix.get(k, 0) + 1
+            if rec["op"] == "cli" and rec.get("outcome") == "ok" and rec["i"] < len(plan["ops"]):
+                argv = plan["ops"][rec["i"]].get("argv") or []
+                if argv and argv[0] in ("c", "go", "py"):
+                    k = "cli %s%s%s%s" % (argv[0], " -O" if "-O" in argv else "", " -F" if "-F" in argv else "", " --endian" if "--endian" in argv else "")
+                    matrix[k] = matrix.get(k, 0) + 1
     ops = 0
     sysops = 0
     outcomes = {}
@@ -232,6 +244,7 @@ def summarize(res: dict, compared):
         "steps": res.get("total_steps", 0),
         "budget_max_fraction": maxfrac,
         "compared": compared,
+        "render_matrix": matrix,
     }
 
 
@@ -615,6 +628,7 @@ def selftest(prop: str, tier: str, seeds, jobs: int) -> dict:
 def evidence(prop, tier, base_seed, done, selftest_info, wall, t_runs, nviol, known_sigs, jobs):
     ops = sysops = steps = restarts = planned = 0
     faults, outcomes, probes, trip = {}, {}, {}, {}
+    matrix = {}
     tuples = set()
     compared = set()
     ncompared = 0
@@ -639,6 +653,8 @@ def evidence(prop, tier, base_seed, done, selftest_info, wall, t_runs, nviol, kn
                 for k, v in src.items():
                     d[k] = d.get(k, 0) + v
             tuples.update(s["tuples"])
+            for k, v in (s.get("render_matrix") or {}).items():
+                matrix[k] = matrix.get(k, 0) + v
             for kid, hs in s["compared"]:
                 ncompared += 1
                 if hs:
@@ -666,6 +682,7 @@ def evidence(prop, tier, base_seed, done, selftest_info, wall, t_runs, nviol, kn
         "faults_planned": planned,
         "faults_fired": faults,
         "outcome_classes": outcomes,
+        "successful_renders_by_language_and_mode": matrix,
         "probes": probes,
         "tripwire_reads": trip,
         "restarts": restarts,
